@@ -27,6 +27,17 @@ func init() {
 			{"C02.R6", "q", "hintMgr.close dumps every chunk's last split", c02r6},
 			{"C02.R7", "q", "tree-dump id ordering and hint reader start", c02r7},
 			{"C14.R7", "q", "shared: a split's recorded data size covers only accepted records", c14r7},
+			{"C02.R8", "q", "rebuild from data and replay of hints carry every field of the record/item", c02r8},
+			{"C02.R9", "q", "choice of the tree dump at start-up", c02r9},
+			{"C14.R12", "q", "shared: index file naming codec", c14r12},
+			{"C14.R13", "q", "shared: start-up acceptance of hint files", c14r13},
+			{"C14.R14", "q", "shared: split dump discipline", c14r14},
+			{"C14.R11", "q", "shared: an item is never dropped when a split is full", c14r11},
+			{"C13.R11", "q", "shared: collision table persistence", c13r11},
+			{"C14.R4", "q", "shared: hint file order and index search", c14r4},
+			{"C14.R3", "q", "shared: seek/offset pairing of the stream and hint readers", c14r3},
+			{"C06.R8", "q", "shared: a fatal log line stops the process", c06r8},
+			{"C18.R6", "q", "shared: hint files of a chunk removed by glob", c18r6},
 		},
 	})
 }
